@@ -380,6 +380,16 @@ def _field_diff(a, b):
     return None
 
 
+def proj_C16(c):
+    """what C16 is about: the outcome class and the structural attributes the validity invariants read
+    (not names, title, source, comment, nickname strings: those are C15's)"""
+    if not c.startswith('OK '):
+        return c
+    f = c.split(' ')
+    keep = [x for x in f[:4]] + [x for x in f[4:] if x[:2] in ('E:', 'W:', 'U:', 'T:', 'B:', 'Q:', 'O:')]
+    return ' '.join(keep)
+
+
 @prop('C16')
 def C16(run):
     broken = lean_gate(run, THEOREMS['C16'])
@@ -412,7 +422,7 @@ def C16(run):
             nfail += 1
             if nfail <= 3:
                 run.violation(dict(kind='implementation', what=bad, text=t, implementation=c[:500], model=m[:500]))
-        if c != m:
+        if proj_C16(c) != proj_C16(m):
             ncorr += 1; firstc = firstc or (t, c, m)
     if not ok_tab:
         ncorr += 1; firstc = firstc or ('unicode tables', tabs[1], tabs[0])
